@@ -397,6 +397,10 @@ class FuncMixin:
     def construct(self, st, cname, args, kw, node):
         if cname in self.ct.env.enums:
             raise EngineError("enum construction by value")
+        if cname not in self.ct.classes and cname in ("OrderedSet", "FrozenOrderedSet"):
+            # pynguin's ordered set used as a plain (finite) set: its order is not tracked outside C34
+            yield from self.call_builtin(st, "set", args, kw, node)
+            return
         if cname not in self.ct.classes:
             # exception classes and unknown classes: opaque object
             yield st, fresh(TOpaque(cname), "obj")
